@@ -1,0 +1,13 @@
+//go:build verif
+
+package jobqueuecontroller
+
+import (
+	"k8s.io/client-go/util/workqueue"
+)
+
+// VerifSetQueues injects deterministic workqueues (verification harness in /verif).
+func (c *Context) VerifSetQueues(jobConfigQueue, independentQueue workqueue.RateLimitingInterface) {
+	c.jobConfigQueue = jobConfigQueue
+	c.independentQueue = independentQueue
+}
